@@ -102,6 +102,8 @@ inductive Out where
   | val (v : Option Bytes)
   | items (xs : Option (List Bytes))
   | num (n : Option Nat)
+  /-- the Go code panics (`Set` on a read-only LocalDB). -/
+  | panic
   deriving Repr, DecidableEq
 
 def LocalDB.step (l : LocalDB) : Op → LocalDB × Out
@@ -119,6 +121,33 @@ def LocalDB.run (l : LocalDB) : List Op → LocalDB × List Out
     let r := l.step op
     let rs := LocalDB.run r.1 ops
     (rs.1, r.2 :: rs.2)
+
+/-! ### read-only mode (`NewLocalDB(maindb, true)`: `cache == nil`, `txcache == nil`)
+
+Used for transaction checks: no memdb layers; `get` goes straight to `maindb` (no read-through
+fill), `List`/`PrefixCount` merge the single layer `[maindb]`, `Set` panics
+("set local db in read only mode"); `Begin`/`Commit`/`Rollback` only toggle `intx`. -/
+
+structure RoLocalDB where
+  main : Map
+  intx : Bool
+  deriving Repr
+
+def RoLocalDB.new (main : Map) : RoLocalDB := { main := main, intx := false }
+
+def RoLocalDB.get (l : RoLocalDB) (k : Bytes) : Option Bytes :=
+  match C06.get l.main k with
+  | some v => if isDeleted v then none else some v
+  | none => none
+
+def RoLocalDB.step (l : RoLocalDB) : Op → RoLocalDB × Out
+  | .begin => ({ l with intx := true }, .ok)
+  | .commit => ({ l with intx := false }, .ok)
+  | .rollback => ({ l with intx := false }, .ok)
+  | .set _ _ => (l, .panic)
+  | .get k => (l, .val (l.get k))
+  | .list p k c d => (l, .items (listMerged [l.main] p k c d))
+  | .count p => (l, .num (countMerged [l.main] p))
 
 /-! ### specification: a key/value map with an optional open transaction -/
 
